@@ -85,7 +85,8 @@ def run_async_job(job):
             to = job.get("call_timeout", 60)
             wd = lambda f, w: arun.call_with_watchdog(f, to, w)  # noqa: E731
         try:
-            eps_done, cur = arun.run_history(h, run["history"], wd=wd, on_boundary=on_boundary, eps0=eps_next, fixed_gs_eps=job.get("fixed_gs_eps"), dirty=bool(job.get("dirty_init")))
+            eps_done, cur = arun.run_history(h, run["history"], wd=wd, on_boundary=on_boundary, eps0=eps_next, fixed_gs_eps=job.get("fixed_gs_eps"), dirty=bool(job.get("dirty_init")),
+                                             vary_params=bool(job.get("vary_params")))
         except gate.LogicalDeadlock as e:
             rr["events"].append(dict(kind="deadlock", detail=str(e), choices=list(S.choices), npoints=S.n_points))
             rr["fatal"] = True
@@ -114,9 +115,17 @@ def run_async_job(job):
                 rr["events"].append(dict(kind="no_record", detail=r.get("record_error", "")))
                 continue
             use_ref = ref if run.get("use_ref", True) and job.get("ref", False) else None
-            t = trace.build_trace(f"{job.get('id', 'job')}/r{ri}e{ei}", cfg, r, init, rngidx=rngidx, eps=r["gs_eps"], epsrec=r["eps"],
+            cfg_e = cfg
+            if "params_p" in r:
+                import copy
+                cfg_e = copy.deepcopy(cfg)
+                for n in cfg_e["nodes"]:
+                    n["p"] = r["params_p"][n["name"]]
+            t = trace.build_trace(f"{job.get('id', 'job')}/r{ri}e{ei}", cfg_e, r, init, rngidx=rngidx, eps=r["gs_eps"], epsrec=r["eps"],
                                   rflags=rflags, check_log=job.get("check_log", True),
                                   ref=(trace.as_ref(use_ref) if use_ref is not None else None))
+            if "params" in r.get("record", {}):
+                t["recparams"] = dict(r["record"]["params"])
             if job.get("trim_log_to_rows"):
                 for n in names:
                     t["log"][n] = [e for e in t["log"][n] if e["seq"] < len(t["steps"][n])]
